@@ -484,6 +484,219 @@ func c12IdSkeleton() ([]string, error) {
 	return append(res, deferred...), nil
 }
 
+// ---------------------------------------------------------------- semantic facts
+//
+// Facts that survive behaviour-preserving restructuring (helpers, early returns, switch instead
+// of if, stacked defers, renamed locals):
+//
+//  1. every access to the tables erp.Mutexes / erp.MutexeOwners anywhere in package interpreter
+//     happens while MutexesMutex is held in the same function: after a MutexesMutex.Lock() and
+//     before the matching MutexesMutex.Unlock() (source order), or anywhere after the Lock when
+//     the Unlock is deferred. A function literal is a function of its own.
+//  2. in (*mutexRuntime).Eval every `m.Lock()` on a local mutex value is followed, in the same
+//     statement list, by a deferred `m.Unlock()` — directly (`defer m.Unlock()`) or as an
+//     unconditional statement of a deferred function literal — and Eval contains no `m.Unlock()`
+//     that is not deferred.
+
+type c12Access struct {
+	where   string
+	guarded bool
+}
+
+// c12ScanFunc walks one function body in source order, tracking whether MutexesMutex is held.
+func c12ScanFunc(name string, body *ast.BlockStmt, out *[]c12Access) {
+	held := false
+	lits := 0
+	var visit func(n ast.Node) bool
+	visit = func(n ast.Node) bool {
+		switch x := n.(type) {
+		case *ast.FuncLit:
+			lits++
+			c12ScanFunc(fmt.Sprintf("%s.func%d", name, lits), x.Body, out)
+			return false
+		case *ast.DeferStmt:
+			if sel, ok := x.Call.Fun.(*ast.SelectorExpr); ok && c12SelTail(sel.X) == "MutexesMutex" {
+				// deferred Unlock: the lock stays held to the end of the function
+				return false
+			}
+		case *ast.CallExpr:
+			if sel, ok := x.Fun.(*ast.SelectorExpr); ok && c12SelTail(sel.X) == "MutexesMutex" {
+				switch sel.Sel.Name {
+				case "Lock":
+					held = true
+				case "Unlock":
+					held = false
+				}
+				return false
+			}
+		case *ast.IndexExpr:
+			if t := c12SelTail(x.X); t == "Mutexes" || t == "MutexeOwners" {
+				*out = append(*out, c12Access{name + ":" + t, held})
+			}
+		}
+		return true
+	}
+	ast.Inspect(body, visit)
+}
+
+func c12TableAccesses() ([]c12Access, error) {
+	dir := filepath.Join(repoDir(), "interpreter")
+	files, err := filepath.Glob(filepath.Join(dir, "*.go"))
+	if err != nil {
+		return nil, err
+	}
+	sort.Strings(files)
+	var out []c12Access
+	fset := token.NewFileSet()
+	for _, fn := range files {
+		if strings.HasSuffix(fn, "_test.go") {
+			continue
+		}
+		f, err := parser.ParseFile(fset, fn, nil, 0)
+		if err != nil {
+			return nil, err
+		}
+		for _, d := range f.Decls {
+			if fd, ok := d.(*ast.FuncDecl); ok && fd.Body != nil {
+				name := fd.Name.Name
+				if fd.Recv != nil && len(fd.Recv.List) == 1 {
+					t := fd.Recv.List[0].Type
+					if st, ok := t.(*ast.StarExpr); ok {
+						t = st.X
+					}
+					if id, ok := t.(*ast.Ident); ok {
+						name = id.Name + "." + name
+					}
+				}
+				c12ScanFunc(name, fd.Body, &out)
+			}
+		}
+	}
+	return out, nil
+}
+
+// c12ReleaseDeferred evaluates fact 2; the strings describe each m.Lock() found.
+func c12ReleaseDeferred() ([]c12Access, error) {
+	fset := token.NewFileSet()
+	path := filepath.Join(repoDir(), "interpreter", "rt_statements.go")
+	f, err := parser.ParseFile(fset, path, nil, 0)
+	if err != nil {
+		return nil, err
+	}
+	var eval *ast.FuncDecl
+	for _, d := range f.Decls {
+		if fd, ok := d.(*ast.FuncDecl); ok && fd.Name.Name == "Eval" && fd.Recv != nil && len(fd.Recv.List) == 1 {
+			if st, ok := fd.Recv.List[0].Type.(*ast.StarExpr); ok {
+				if id, ok := st.X.(*ast.Ident); ok && id.Name == "mutexRuntime" {
+					eval = fd
+				}
+			}
+		}
+	}
+	if eval == nil {
+		return nil, fmt.Errorf("(*mutexRuntime).Eval not found")
+	}
+	localCall := func(s ast.Stmt, method string) string { // `x.method()` on a plain identifier
+		es, ok := s.(*ast.ExprStmt)
+		if !ok {
+			return ""
+		}
+		c, ok := es.X.(*ast.CallExpr)
+		if !ok {
+			return ""
+		}
+		return c12LocalCall(c, method)
+	}
+	var out []c12Access
+	var lists func(list []ast.Stmt)
+	var nested func(s ast.Stmt)
+	lists = func(list []ast.Stmt) {
+		for i, s := range list {
+			if m := localCall(s, "Lock"); m != "" {
+				ok := false
+				for _, later := range list[i+1:] {
+					ds, isDefer := later.(*ast.DeferStmt)
+					if !isDefer {
+						continue
+					}
+					if c12LocalCall(ds.Call, "Unlock") == m {
+						ok = true
+					}
+					if fl, isLit := ds.Call.Fun.(*ast.FuncLit); isLit {
+						for _, inner := range fl.Body.List {
+							if localCall(inner, "Unlock") == m {
+								ok = true
+							}
+						}
+					}
+				}
+				out = append(out, c12Access{"Lock of local mutex has deferred unconditional Unlock", ok})
+			}
+			if m := localCall(s, "Unlock"); m != "" {
+				out = append(out, c12Access{"Unlock of local mutex outside a defer", false})
+			}
+			nested(s)
+		}
+	}
+	nested = func(s ast.Stmt) {
+		switch x := s.(type) {
+		case *ast.BlockStmt:
+			lists(x.List)
+		case *ast.IfStmt:
+			lists(x.Body.List)
+			if x.Else != nil {
+				nested(x.Else)
+			}
+		case *ast.SwitchStmt:
+			for _, c := range x.Body.List {
+				lists(c.(*ast.CaseClause).Body)
+			}
+		case *ast.ForStmt:
+			lists(x.Body.List)
+		case *ast.ExprStmt:
+			// an immediately invoked function literal: its statements run right here
+			if c, ok := x.X.(*ast.CallExpr); ok {
+				if fl, ok := c.Fun.(*ast.FuncLit); ok {
+					lists(fl.Body.List)
+				}
+			}
+		}
+	}
+	lists(eval.Body.List)
+	if len(out) == 0 {
+		out = append(out, c12Access{"no Lock of a local mutex found in Eval", false})
+	}
+	return out, nil
+}
+
+func c12LocalCall(c *ast.CallExpr, method string) string {
+	sel, ok := c.Fun.(*ast.SelectorExpr)
+	if !ok || sel.Sel.Name != method || len(c.Args) != 0 {
+		return ""
+	}
+	if id, ok := sel.X.(*ast.Ident); ok {
+		return id.Name
+	}
+	return ""
+}
+
+func c12WriteFacts(sb *strings.Builder, name, doc string, xs []c12Access, err error) {
+	if err != nil {
+		fmt.Fprintln(os.Stderr, err)
+		xs = []c12Access{{"extraction failed", false}}
+	}
+	sb.WriteString("/-- " + doc + " -/\n")
+	sb.WriteString("def " + name + " : List (String × Bool) := [\n")
+	for i, a := range xs {
+		sep := ","
+		if i == len(xs)-1 {
+			sep = ""
+		}
+		sb.WriteString(fmt.Sprintf("  (%q, %v)%s\n", a.where, a.guarded, sep))
+	}
+	sb.WriteString("]\n\n")
+}
+
 func c12Tool(args []string) int {
 	if len(args) < 1 || args[0] != "skeleton" {
 		fmt.Fprintln(os.Stderr, "usage: harness C12 -tool skeleton [out.lean]")
@@ -519,7 +732,12 @@ func c12Tool(args []string) int {
 		}
 		sb.WriteString(fmt.Sprintf("%q", s))
 	}
-	sb.WriteString("]\n\nend Ecal.Gen.C12\n")
+	sb.WriteString("]\n\n")
+	acc, err := c12TableAccesses()
+	c12WriteFacts(&sb, "tableAccesses", "every access to erp.Mutexes / erp.MutexeOwners in package interpreter: (function:table, MutexesMutex held there)", acc, err)
+	rel, err := c12ReleaseDeferred()
+	c12WriteFacts(&sb, "releases", "every Lock / non-deferred Unlock of a local mutex value in mutexRuntime.Eval: (what, acceptable)", rel, err)
+	sb.WriteString("end Ecal.Gen.C12\n")
 	if len(args) > 1 {
 		if err := os.WriteFile(args[1], []byte(sb.String()), 0644); err != nil {
 			fmt.Fprintln(os.Stderr, err)
